@@ -7,7 +7,7 @@ import itertools
 from typing import Any, Callable, Dict, Iterator, List, Optional, Tuple
 
 from .data import skeletons
-from .refmodel.deser import UNDEF, Ctx, VAlts, VEnum, VObj, conform, resolve
+from .refmodel.deser import UNDEF, Ctx, VAlts, VEnum, VObj, conform, flat_alts, resolve
 from .tast import (
     BOOL,
     FLOAT,
@@ -480,6 +480,12 @@ def well_formed(t: T, ctx: Ctx) -> Optional[str]:
                         return "flattened non-object"
             if sum(1 for f in x.fields if f.props == "") > 1:
                 return "two additional properties fields"
+            for f in x.fields:
+                if f.none_as_undefined:
+                    ft = resolve(f.type, ctx)
+                    alts = flat_alts(ft) if isinstance(ft, Uni) else [ft]
+                    if all(isinstance(a, Prim) and a.kind == "none" for a in alts):
+                        return "none_as_undefined on a field whose only type is None"
     return None
 
 
